@@ -474,8 +474,13 @@ func (w *World) buildCRL(cp *CertPlan, src *CRLSrc, plan *CRLPlan, isDelta bool,
 		NextUpdate: resolveNext(plan.NextKind, now), Number: src.BaseNum,
 		IDPCritical: plan.IDPCritical, UnknownCrit: plan.UnknownCrit, UnknownNon: plan.UnknownNon}
 	switch plan.SignerKind {
-	case "issuer", "sigflip":
+	case "issuer", "sigflip", "stale_sig":
 		s.SignerKey = issuer.Key
+		if plan.SignerKind == "stale_sig" {
+			if m := w.base().sigMemo[cp.Pos+1].Load(); m != nil {
+				s.ForeignSig, s.ForeignTBS = m.sig, m.tbs
+			}
+		}
 	case "other_ca":
 		s.SignerKey = w.OtherCA.Key
 	default:
@@ -519,7 +524,17 @@ func (w *World) buildCRL(cp *CertPlan, src *CRLSrc, plan *CRLPlan, isDelta bool,
 		s.Entries = append(s.Entries, es)
 	}
 	EncodeCRL(s)
+	if w.StaleSig && s.SignerKind == "issuer" {
+		w.base().sigMemo[cp.Pos+1].Store(&sigMemo{sig: s.Sig, tbs: s.TBSHash})
+	}
 	return s
+}
+
+func (w *World) base() *World {
+	for w.CloneOf != nil {
+		w = w.CloneOf
+	}
+	return w
 }
 
 func (w *World) serveCRL(cp *CertPlan, src *CRLSrc, isDelta bool) func(x *Exchange, req *http.Request, body []byte, now time.Time) ([]byte, string) {
